@@ -1348,6 +1348,15 @@ pub mod verif_dispatcher {
         }
     }
 
+    /// `convert`, for the loop probe.
+    pub(super) fn convert_for_verif(
+        tests: &[TestInstance<'static>],
+        scripts: &[(ScriptId, &'static ScriptConfig)],
+        kind: &TestEventKind<'_>,
+    ) -> VerifEmitted {
+        convert(tests, scripts, kind)
+    }
+
     impl VerifStepper {
         /// Creates a context as `TestRunnerInner::execute` does (`max_fail`: `None` = `MaxFail::All`).
         /// `n_scripts` synthetic setup scripts are created.
@@ -1523,6 +1532,11 @@ pub mod verif_dispatcher {
             }
         }
 
+        /// The synthetic setup scripts (for the loop probe).
+        pub(super) fn scripts_for_verif(&self) -> Vec<(ScriptId, &'static ScriptConfig)> {
+            self.scripts.clone()
+        }
+
         /// The outcome of the handshake of the last event fed, also meaningful after
         /// `handle_event` panicked.
         pub fn take_handshake(&mut self) -> VerifHandshake {
@@ -1596,5 +1610,343 @@ pub mod verif_dispatcher {
                 state: self.state(),
             }
         }
+    }
+}
+
+/// Verification hooks (`--cfg nextest_verif`): drive the real [`DispatcherContext::run`] loop —
+/// executor events through its channel, the report-cancel oneshot, and *real* shutdown signals
+/// raised at this process — and read back what every live unit received on its request channel
+/// (the broadcast), next to the handshake outcome and the emitted events.
+#[cfg(all(nextest_verif, unix))]
+pub mod verif_dispatcher_loop {
+    use super::{verif_dispatcher::*, *};
+    use crate::reporter::{
+        TestOutputDisplay,
+        events::verif_run_stats::{execute_status, setup_script_status},
+    };
+    use std::sync::{Arc, Mutex};
+
+    /// A request received by a unit.
+    #[derive(Clone, Copy, Debug, Eq, PartialEq)]
+    #[allow(missing_docs)]
+    pub enum VerifRequest {
+        OtherCancel,
+        ShutdownOnce(VerifShutdown),
+        ShutdownTwice,
+        Stop,
+        Continue,
+        GetInfo,
+    }
+
+    /// What happened after one input was fed to the loop.
+    #[derive(Clone, Debug)]
+    #[allow(missing_docs)]
+    pub struct VerifLoopStep {
+        pub emitted: Vec<VerifEmitted>,
+        pub handshake: VerifHandshake,
+        /// For every unit whose request channel is live (in hand-over order): what it received.
+        pub received: Vec<Vec<VerifRequest>>,
+        /// The loop returned (all senders gone) — only after the last input.
+        pub loop_finished: bool,
+    }
+
+    fn request_of(req: &RunUnitRequest<'_>) -> VerifRequest {
+        match req {
+            RunUnitRequest::OtherCancel => VerifRequest::OtherCancel,
+            RunUnitRequest::Signal(SignalRequest::Shutdown(ShutdownRequest::Once(e))) => {
+                VerifRequest::ShutdownOnce(match e {
+                    ShutdownEvent::Hangup => VerifShutdown::Hangup,
+                    ShutdownEvent::Term => VerifShutdown::Term,
+                    ShutdownEvent::Quit => VerifShutdown::Quit,
+                    ShutdownEvent::Interrupt => VerifShutdown::Interrupt,
+                })
+            }
+            RunUnitRequest::Signal(SignalRequest::Shutdown(ShutdownRequest::Twice)) => {
+                VerifRequest::ShutdownTwice
+            }
+            RunUnitRequest::Signal(SignalRequest::Stop(_)) => VerifRequest::Stop,
+            RunUnitRequest::Signal(SignalRequest::Continue) => VerifRequest::Continue,
+            RunUnitRequest::Query(RunUnitQuery::GetInfo(_)) => VerifRequest::GetInfo,
+        }
+    }
+
+    enum Pending {
+        Unit(oneshot::Receiver<UnboundedReceiver<RunUnitRequest<'static>>>),
+        Retry(oneshot::Receiver<()>),
+    }
+
+    /// Runs the real dispatcher loop over `inputs`. Supported inputs: the executor events,
+    /// `ReportCancel` (at most once) and `Shutdown(_)` (raised as a real signal at this process;
+    /// at most two — the third would abort the process, as it does nextest). Job-control and info
+    /// inputs are rejected (`Err`), because the loop would really stop the process / wait on real
+    /// timers for them. `finished_tests[i]` tells that the unit of the i-th accepted test channel
+    /// has returned (its receiver is dropped) — computed by the caller from the inputs.
+    pub fn run_loop(
+        tests: Vec<TestInstance<'static>>,
+        n_scripts: usize,
+        initial_run_count: usize,
+        max_fail: Option<usize>,
+        inputs: &[VerifInput],
+    ) -> Result<Vec<VerifLoopStep>, String> {
+        let rt = tokio::runtime::Builder::new_current_thread()
+            .enable_all()
+            .build()
+            .map_err(|e| e.to_string())?;
+        // build a stepper only for its synthetic scripts and the event conversion
+        let probe = VerifStepper::new(tests.clone(), n_scripts, initial_run_count, max_fail);
+        let scripts = probe.scripts_for_verif();
+        let emitted: Arc<Mutex<Vec<VerifEmitted>>> = Arc::new(Mutex::new(Vec::new()));
+        let callback = {
+            let emitted = emitted.clone();
+            let tests = tests.clone();
+            let scripts = scripts.clone();
+            move |event: TestEvent<'static>| {
+                emitted
+                    .lock()
+                    .unwrap()
+                    .push(convert_for_verif(&tests, &scripts, &event.kind));
+            }
+        };
+        let mut cx = DispatcherContext::new(
+            callback,
+            ReportUuid::new_v4(),
+            "default",
+            Vec::new(),
+            initial_run_count,
+            match max_fail {
+                Some(n) => MaxFail::Count(n),
+                None => MaxFail::All,
+            },
+        );
+
+        rt.block_on(async {
+            let mut signal_handler = SignalHandler::new().map_err(|e| e.to_string())?;
+            let mut input_handler = InputHandler::noop();
+            let (exec_tx, exec_rx) = unbounded_channel::<ExecutorEvent<'static>>();
+            let (rc_tx, rc_rx) = oneshot::channel();
+            let mut rc_tx = Some(rc_tx);
+            let mut shutdowns = 0;
+            // (receiver, unit index of the test or usize::MAX for a script)
+            let mut units: Vec<(UnboundedReceiver<RunUnitRequest<'static>>, Option<usize>, bool)> =
+                Vec::new();
+            let mut steps = Vec::new();
+            let mut finished = false;
+
+            let run_fut = cx.run(exec_rx, &mut signal_handler, &mut input_handler, rc_rx);
+            tokio::pin!(run_fut);
+
+            for input in inputs {
+                emitted.lock().unwrap().clear();
+                let mut pending = None;
+                let mut pending_key: Option<usize> = None;
+                let mut is_signal = false;
+                match *input {
+                    VerifInput::SetupScriptStarted { script } => {
+                        let (tx, rx) = oneshot::channel();
+                        pending = Some(Pending::Unit(rx));
+                        pending_key = None;
+                        let (id, config) = scripts[script].clone();
+                        let _ = exec_tx.send(ExecutorEvent::SetupScriptStarted {
+                            script_id: id,
+                            config,
+                            index: script,
+                            total: scripts.len(),
+                            req_rx_tx: tx,
+                        });
+                    }
+                    VerifInput::SetupScriptSlow {
+                        script,
+                        will_terminate,
+                    } => {
+                        let (id, config) = scripts[script].clone();
+                        let _ = exec_tx.send(ExecutorEvent::SetupScriptSlow {
+                            script_id: id,
+                            config,
+                            elapsed: Duration::ZERO,
+                            will_terminate: will_terminate.then_some(Duration::ZERO),
+                        });
+                    }
+                    VerifInput::SetupScriptFinished { script, result } => {
+                        // the script unit returns: its receiver goes away first
+                        units.retain(|(_, key, _)| key.is_some());
+                        let (id, config) = scripts[script].clone();
+                        let _ = exec_tx.send(ExecutorEvent::SetupScriptFinished {
+                            script_id: id,
+                            config,
+                            index: script,
+                            total: scripts.len(),
+                            status: setup_script_status(result),
+                        });
+                    }
+                    VerifInput::Started { test } => {
+                        let (tx, rx) = oneshot::channel();
+                        pending = Some(Pending::Unit(rx));
+                        pending_key = Some(test);
+                        let _ = exec_tx.send(ExecutorEvent::Started {
+                            test_instance: tests[test],
+                            req_rx_tx: tx,
+                        });
+                    }
+                    VerifInput::Slow {
+                        test,
+                        attempt,
+                        total_attempts,
+                        will_terminate,
+                    } => {
+                        let _ = exec_tx.send(ExecutorEvent::Slow {
+                            test_instance: tests[test],
+                            retry_data: crate::reporter::events::RetryData {
+                                attempt,
+                                total_attempts,
+                            },
+                            elapsed: Duration::ZERO,
+                            will_terminate: will_terminate.then_some(Duration::ZERO),
+                        });
+                    }
+                    VerifInput::AttemptFailedWillRetry { test, status } => {
+                        let _ = exec_tx.send(ExecutorEvent::AttemptFailedWillRetry {
+                            test_instance: tests[test],
+                            failure_output: TestOutputDisplay::Never,
+                            run_status: execute_status(status),
+                            delay_before_next_attempt: Duration::ZERO,
+                        });
+                    }
+                    VerifInput::RetryStarted {
+                        test,
+                        attempt,
+                        total_attempts,
+                    } => {
+                        let (tx, rx) = oneshot::channel();
+                        pending = Some(Pending::Retry(rx));
+                        pending_key = Some(test);
+                        let _ = exec_tx.send(ExecutorEvent::RetryStarted {
+                            test_instance: tests[test],
+                            retry_data: crate::reporter::events::RetryData {
+                                attempt,
+                                total_attempts,
+                            },
+                            tx,
+                        });
+                    }
+                    VerifInput::Finished { test, status } => {
+                        // the unit drains and drops its receiver before sending Finished
+                        units.retain(|(_, key, _)| *key != Some(test));
+                        let _ = exec_tx.send(ExecutorEvent::Finished {
+                            test_instance: tests[test],
+                            success_output: TestOutputDisplay::Never,
+                            failure_output: TestOutputDisplay::Never,
+                            junit_store_success_output: false,
+                            junit_store_failure_output: false,
+                            last_run_status: execute_status(status),
+                        });
+                    }
+                    VerifInput::Skipped { test } => {
+                        let _ = exec_tx.send(ExecutorEvent::Skipped {
+                            test_instance: tests[test],
+                            reason: nextest_metadata::MismatchReason::String,
+                        });
+                    }
+                    VerifInput::ReportCancel => match rc_tx.take() {
+                        Some(tx) => {
+                            let _ = tx.send(());
+                        }
+                        None => return Err("ReportCancel fed twice".to_owned()),
+                    },
+                    VerifInput::Shutdown(s) => {
+                        shutdowns += 1;
+                        if shutdowns > 2 {
+                            return Err("third shutdown signal not supported".to_owned());
+                        }
+                        is_signal = true;
+                        let signo = match s {
+                            VerifShutdown::Hangup => libc::SIGHUP,
+                            VerifShutdown::Term => libc::SIGTERM,
+                            VerifShutdown::Quit => libc::SIGQUIT,
+                            VerifShutdown::Interrupt => libc::SIGINT,
+                        };
+                        // the handlers were installed by SignalHandler::new() above
+                        unsafe {
+                            libc::raise(signo);
+                        }
+                    }
+                    VerifInput::Stop
+                    | VerifInput::Continue
+                    | VerifInput::InfoSignal { .. }
+                    | VerifInput::InputInfo
+                    | VerifInput::InputEnter => {
+                        return Err("input not supported by the loop probe".to_owned());
+                    }
+                }
+
+                // let the loop handle what is ready
+                if futures::poll!(run_fut.as_mut()).is_ready() {
+                    finished = true;
+                }
+                if is_signal && !finished {
+                    // a real signal arrives through the runtime's signal driver: park until the
+                    // loop has emitted something for it (bounded)
+                    for _ in 0..5000 {
+                        if !emitted.lock().unwrap().is_empty() {
+                            break;
+                        }
+                        tokio::select! {
+                            biased;
+                            _ = run_fut.as_mut() => { finished = true; }
+                            _ = tokio::time::sleep(Duration::from_millis(2)) => {}
+                        }
+                        if finished {
+                            break;
+                        }
+                    }
+                    if !finished && futures::poll!(run_fut.as_mut()).is_ready() {
+                        finished = true;
+                    }
+                }
+
+                let handshake = match pending.take() {
+                    None => VerifHandshake::NoChannel,
+                    Some(Pending::Unit(mut rx)) => match rx.try_recv() {
+                        Ok(req_rx) => {
+                            units.push((req_rx, pending_key, true));
+                            VerifHandshake::Accepted
+                        }
+                        Err(_) => VerifHandshake::Refused,
+                    },
+                    Some(Pending::Retry(mut rx)) => match rx.try_recv() {
+                        Ok(()) => VerifHandshake::Accepted,
+                        Err(_) => {
+                            // the unit returns without Finished: its receiver goes away
+                            units.retain(|(_, key, _)| *key != pending_key);
+                            VerifHandshake::Refused
+                        }
+                    },
+                };
+                let received = units
+                    .iter_mut()
+                    .map(|(rx, _, _)| {
+                        let mut got = Vec::new();
+                        while let Ok(req) = rx.try_recv() {
+                            got.push(request_of(&req));
+                        }
+                        got
+                    })
+                    .collect();
+                steps.push(VerifLoopStep {
+                    emitted: std::mem::take(&mut *emitted.lock().unwrap()),
+                    handshake,
+                    received,
+                    loop_finished: finished,
+                });
+                if finished {
+                    break;
+                }
+            }
+            // closing the executor channel ends the loop
+            drop(exec_tx);
+            if !finished {
+                let _ = tokio::time::timeout(Duration::from_millis(500), run_fut.as_mut()).await;
+            }
+            Ok(steps)
+        })
     }
 }
